@@ -18,14 +18,10 @@ package main
 import (
 	"context"
 	"fmt"
-	"sort"
 	"strings"
-	"sync"
-
-	"github.com/brimdata/super/api"
-	"github.com/segmentio/ksuid"
 
 	"verif/core"
+	"verif/jrun"
 	"verif/lakeh"
 )
 
@@ -77,311 +73,6 @@ func scenarios(c *core.Ctx) []*lakeh.JScenario {
 	}
 }
 
-type opResult struct {
-	C   int       `json:"c"`
-	I   int       `json:"i"`
-	Op  lakeh.JOp `json:"op"`
-	Res string    `json:"res"`
-	Err string    `json:"err,omitempty"`
-	ID  string    `json:"id,omitempty"` // commit / pool id returned
-	UID int       `json:"uid,omitempty"`
-}
-
-type witness struct {
-	Scenario *lakeh.JScenario `json:"scenario"`
-	Sched    []lakeh.GateStep `json:"sched"`
-	Results  []opResult       `json:"results"`
-	Detail   string           `json:"detail"`
-}
-
-type runner struct {
-	c   *core.Ctx
-	ctx context.Context
-}
-
-// run one schedule on the real lake; returns the real results and the list of oracle failures.
-func (r *runner) execute(sc *lakeh.JScenario, sched []lakeh.GateStep, want *lakeh.JBehaviour) (results []opResult, fails []string, drift string, err error) {
-	ctx := r.ctx
-	store := lakeh.NewMemStore()
-	lk0, err := lakeh.Create(ctx, store, 0, nil)
-	if err != nil {
-		return nil, nil, "", err
-	}
-	poolP, err := lk0.CreatePool(ctx, "p", "k", "asc", 0, 0)
-	if err != nil {
-		return nil, nil, "", err
-	}
-	if _, err := lk0.LoadZSON(ctx, poolP, "main", "{k:0,u:0}"); err != nil {
-		return nil, nil, "", err
-	}
-	ids := map[int]ksuid.KSUID{1: poolP} // spec id -> real pool id
-	if sc.Journal == "pools" {
-		q, err := lk0.CreatePool(ctx, "q", "k", "asc", 0, 0)
-		if err != nil {
-			return nil, nil, "", err
-		}
-		ids[2] = q
-	}
-	mainTip, err := lk0.API.CommitObject(ctx, poolP, "main")
-	if err != nil {
-		return nil, nil, "", err
-	}
-	if _, ok := sc.Init["b1"]; ok && sc.Journal == "branches" {
-		if err := lk0.API.CreateBranch(ctx, poolP, "b1", mainTip); err != nil {
-			return nil, nil, "", err
-		}
-	}
-	var gate *lakeh.Gate
-	headPath := "pools/HEAD"
-	if sc.Journal == "branches" {
-		gate = lakeh.NewGate(store, poolP.String()+"/branches", poolP.String()+"/commits")
-		headPath = poolP.String() + "/branches/HEAD"
-	} else {
-		gate = lakeh.NewGate(store, "pools", "")
-	}
-	hb, _ := store.GetRaw(headPath)
-	var head0 int
-	fmt.Sscanf(strings.TrimSpace(string(hb)), "%d", &head0)
-
-	n := len(sc.Script)
-	clients := make([]*lakeh.Lake, n+1)
-	for i := 1; i <= n; i++ {
-		lk, err := lakeh.Open(ctx, store, i, gate.Hook(i))
-		if err != nil {
-			return nil, nil, "", err
-		}
-		// warm the handle's caches (ungated: Begin has not been called)
-		lk.API.CommitObject(ctx, poolP, "main")
-		clients[i] = lk
-	}
-	var mu sync.Mutex
-	var wg sync.WaitGroup
-	for i := 1; i <= n; i++ {
-		gate.Begin(i)
-		wg.Add(1)
-		go func(i int) {
-			defer wg.Done()
-			defer gate.End(i)
-			lk := clients[i]
-			for k, op := range sc.Script[i-1] {
-				res := opResult{C: i, I: k + 1, Op: op, UID: 100*i + k + 1}
-				gate.OpBoundary(i)
-				var e error
-				switch op.K {
-				case "tip":
-					var cm ksuid.KSUID
-					cm, e = lk.LoadZSON(ctx, poolP, op.Key, fmt.Sprintf("{k:%d,u:%d}", res.UID, res.UID))
-					res.ID = cm.String()
-				case "insert":
-					if sc.Journal == "branches" {
-						e = lk.API.CreateBranch(ctx, poolP, op.Key, mainTip)
-					} else {
-						var id ksuid.KSUID
-						id, e = lk.API.CreatePool(ctx, op.Key, lakeh.SortKeys("k", "asc"), 0, 0)
-						res.ID = id.String()
-					}
-				case "rmkey":
-					e = lk.API.RemoveBranch(ctx, poolP, op.Key)
-				case "rename":
-					e = lk.API.RenamePool(ctx, ids[op.ID], op.New)
-				case "rmid":
-					e = lk.API.RemovePool(ctx, ids[op.ID])
-				}
-				res.Res = "ok"
-				if e != nil {
-					res.Res, res.Err = "err", e.Error()
-				}
-				mu.Lock()
-				results = append(results, res)
-				mu.Unlock()
-			}
-		}(i)
-	}
-	if !gate.WaitQuiescent() {
-		gate.Drain()
-		wg.Wait()
-		return results, nil, "", fmt.Errorf("clients did not reach the gate")
-	}
-	for si, st := range sched {
-		lbl, rn, _ := gate.Pending(st.C)
-		if gate.State(st.C) != "blocked" || lbl != st.Lbl {
-			drift = fmt.Sprintf("step %d: spec expects client %d to do %s, real client is %s with pending %q", si+1, st.C, st.Lbl, gate.State(st.C), lbl)
-			break
-		}
-		if (lbl == "cas") && rn != st.N+head0 {
-			drift = fmt.Sprintf("step %d: spec expects cas of entry %d, real client writes entry %d (offset %d)", si+1, st.N, rn, head0)
-			break
-		}
-		if err := gate.Grant(st.C); err != nil {
-			gate.Drain()
-			wg.Wait()
-			return results, nil, "", err
-		}
-		tr := gate.Trace[len(gate.Trace)-1]
-		if drift == "" && lbl == "rh" && tr.N != st.N+head0 {
-			drift = fmt.Sprintf("step %d: spec predicts HEAD=%d, real HEAD=%d (offset %d)", si+1, st.N, tr.N, head0)
-		}
-		if drift == "" && lbl == "cas" && tr.R != st.R {
-			drift = fmt.Sprintf("step %d: spec predicts cas %s, real %s", si+1, st.R, tr.R)
-		}
-		if drift != "" {
-			break
-		}
-	}
-	if drift == "" {
-		for i := 1; i <= n; i++ {
-			if gate.State(i) != "done" {
-				l, _, _ := gate.Pending(i)
-				drift = fmt.Sprintf("after the schedule client %d is not finished (pending %q)", i, l)
-			}
-		}
-	}
-	gate.Drain()
-	wg.Wait()
-	sort.Slice(results, func(a, b int) bool {
-		if results[a].C != results[b].C {
-			return results[a].C < results[b].C
-		}
-		return results[a].I < results[b].I
-	})
-	// compare responses with the spec's (binding; a mismatch is drift, the oracles below decide)
-	if drift == "" && want != nil {
-		for _, w := range want.Resp {
-			for _, g := range results {
-				if g.C == w.C && g.I == w.I && (g.Res == "ok") != (w.Res == "ok") {
-					drift = fmt.Sprintf("client %d op %d (%s): spec result %s, real %s %s", w.C, w.I, w.Op.K, w.Res, g.Res, g.Err)
-				}
-			}
-		}
-	}
-	fails = r.oracles(sc, store, poolP, ids, results)
-	return results, fails, drift, nil
-}
-
-// oracles evaluates the property on the real storage with a cold handle.
-func (r *runner) oracles(sc *lakeh.JScenario, store *lakeh.MemStore, poolP ksuid.KSUID, ids map[int]ksuid.KSUID, results []opResult) (fails []string) {
-	ctx := r.ctx
-	obs, err := lakeh.Open(ctx, store, 99, nil)
-	if err != nil {
-		return []string{"unreadable: lake cannot be reopened: " + err.Error()}
-	}
-	if sc.Journal == "branches" {
-		rows, err := obs.Query(ctx, "from :branches | pool.name=='p' | yield branch.name")
-		if err != nil {
-			return []string{"unreadable: branch table of pool p cannot be read: " + err.Error()}
-		}
-		names := map[string]int{}
-		for _, n := range rows {
-			names[strings.Trim(n, `"`)]++
-		}
-		for n, k := range names {
-			if k > 1 {
-				fails = append(fails, fmt.Sprintf("names: branch name %q appears %d times", n, k))
-			}
-		}
-		removed := map[string]bool{}
-		for _, g := range results {
-			if g.Op.K == "rmkey" && g.Res == "ok" {
-				removed[g.Op.Key] = true
-			}
-		}
-		// acked creates are present unless an acked remove exists
-		for _, g := range results {
-			if g.Op.K == "insert" && g.Res == "ok" && !removed[g.Op.Key] && names[g.Op.Key] == 0 {
-				fails = append(fails, fmt.Sprintf("lost-update: acknowledged create of branch %q is not in the branch table", g.Op.Key))
-			}
-		}
-		for b := range names {
-			got, err := obs.Query(ctx, "from p@"+b)
-			if err != nil {
-				fails = append(fails, fmt.Sprintf("unreadable: branch %q cannot be read: %v", b, err))
-				continue
-			}
-			have := map[int]int{}
-			for _, row := range got {
-				var k, u int
-				fmt.Sscanf(row, "{k:%d,u:%d}", &k, &u)
-				have[u]++
-			}
-			for _, g := range results {
-				if g.Op.K != "tip" || g.Op.Key != b {
-					continue
-				}
-				switch {
-				case g.Res == "ok" && have[g.UID] != 1 && !removed[b]:
-					fails = append(fails, fmt.Sprintf("lost-update: acknowledged commit of value u=%d on branch %q appears %d times in the branch", g.UID, b, have[g.UID]))
-				case g.Res != "ok" && have[g.UID] != 0:
-					fails = append(fails, fmt.Sprintf("fail-trace: commit of u=%d on %q reported failure (%s) but the value is visible", g.UID, b, g.Err))
-				}
-			}
-		}
-		return fails
-	}
-	// pools journal
-	rows, err := obs.Query(ctx, "from :pools | yield {name:name,id:ksuid(id)}")
-	if err != nil {
-		return []string{"unreadable: pool table cannot be read: " + err.Error()}
-	}
-	byName, byID := map[string]int{}, map[string]string{}
-	for _, row := range rows {
-		var name, id string
-		row = strings.NewReplacer("{name:", "", "id:", "", "}", "", `"`, "").Replace(row)
-		parts := strings.Split(row, ",")
-		if len(parts) == 2 {
-			name, id = parts[0], parts[1]
-		}
-		byName[name]++
-		if prev, ok := byID[id]; ok {
-			fails = append(fails, fmt.Sprintf("names: pool id %s is registered under two names %q and %q", id, prev, name))
-		}
-		byID[id] = name
-	}
-	for n, k := range byName {
-		if k > 1 {
-			fails = append(fails, fmt.Sprintf("names: pool name %q appears %d times", n, k))
-		}
-	}
-	removedID, renamedID := map[string]bool{}, map[string]string{}
-	for _, g := range results {
-		if g.Res != "ok" {
-			continue
-		}
-		switch g.Op.K {
-		case "rmid":
-			removedID[ids[g.Op.ID].String()] = true
-		case "rename":
-			renamedID[ids[g.Op.ID].String()] = g.Op.New
-		}
-	}
-	// an acknowledged create is present unless that pool id was removed by an acknowledged operation
-	for _, g := range results {
-		if g.Op.K == "insert" && g.Res == "ok" && !removedID[g.ID] {
-			if _, ok := byID[g.ID]; !ok {
-				fails = append(fails, fmt.Sprintf("lost-update: pool %q (id %s) was created and acknowledged, never removed, but is not in the pool table", g.Op.Key, g.ID))
-			}
-		}
-	}
-	// initial pools that nobody removed must still be registered
-	for sid, id := range ids {
-		if !removedID[id.String()] {
-			if _, ok := byID[id.String()]; !ok {
-				fails = append(fails, fmt.Sprintf("lost-update: initial pool #%d (id %s) was never removed but is not in the pool table", sid, id))
-			}
-		}
-	}
-	// every registered pool is usable; a pool removed by an acknowledged operation is not registered
-	for id, name := range byID {
-		if removedID[id] {
-			fails = append(fails, fmt.Sprintf("fail-trace: pool id %s was removed (acknowledged) but is still registered as %q", id, name))
-			continue
-		}
-		if _, err := obs.Query(ctx, "from "+name); err != nil {
-			fails = append(fails, fmt.Sprintf("unreadable: registered pool %q (id %s) cannot be read: %v", name, id, err))
-		}
-	}
-	return fails
-}
-
 func sigOf(fail string) string {
 	kind, _, _ := strings.Cut(fail, ":")
 	return kind
@@ -389,16 +80,16 @@ func sigOf(fail string) string {
 
 func run(c *core.Ctx) error {
 	ctx := context.Background()
-	r := &runner{c: c, ctx: ctx}
+	r := &jrun.Runner{C: c, Ctx: ctx}
 	c.Rule("cases = complete behaviours (schedules over the gated storage operations of 2-3 clients) exported by TLC from Journal.tla, each replayed on real lake.Root handles through a deterministic storage gate; non-trivial = the schedule contains at least one preemption (a client is switched out in the middle of an operation)")
 	c.Trust("TLC 1.8.0; the harness' in-memory storage engine with atomic put-if-absent; the gate (a scheduling decision is only taken when every client is blocked or finished)")
 	c.Assume("storage with atomic PutIfNotExists (the S3 fallback in Queue.CommitAt is documented as incorrect in the code, issue #2686, and out of scope); schedules bounded by the preemption budget stated per scenario")
 	if c.Replay != "" {
-		var w witness
+		var w jrun.Witness
 		if _, err := c.ReplayWitness(&w); err != nil {
 			return err
 		}
-		_, fails, drift, err := r.execute(w.Scenario, w.Sched, nil)
+		_, fails, drift, err := r.Execute(w.Scenario, w.Sched, nil)
 		if err != nil {
 			return err
 		}
@@ -413,7 +104,7 @@ func run(c *core.Ctx) error {
 		if res == nil {
 			return nil
 		}
-		limit := 400
+		limit := 200
 		if !c.Quick() {
 			limit = 6000
 		}
@@ -429,7 +120,7 @@ func run(c *core.Ctx) error {
 		drifts := 0
 		for i := range bhs {
 			bh := &bhs[i]
-			results, fails, drift, err := r.execute(sc, bh.Sched, bh)
+			results, fails, drift, err := r.Execute(sc, bh.Sched, bh)
 			if err != nil {
 				return fmt.Errorf("%s schedule %s: %w", sc.Name, lakeh.SchedKey(bh.Sched), err)
 			}
@@ -448,7 +139,7 @@ func run(c *core.Ctx) error {
 			}
 			for _, f := range fails {
 				c.Violate(sigOf(f)+":"+sc.Name, fmt.Sprintf("%s [scenario %s, schedule %s]", f, sc.Name, lakeh.SchedKey(bh.Sched)),
-					witness{Scenario: sc, Sched: bh.Sched, Results: results, Detail: f})
+					jrun.Witness{Scenario: sc, Sched: bh.Sched, Results: results, Detail: f})
 			}
 			if i == len(bhs)/2 {
 				c.Sample(map[string]any{"scenario": sc.Name, "schedule": lakeh.SchedKey(bh.Sched), "steps": bh.Sched, "spec_responses": bh.Resp})
@@ -458,7 +149,5 @@ func run(c *core.Ctx) error {
 	}
 	return nil
 }
-
-var _ = api.CommitMessage{}
 
 func main() { core.Main("C12", "model_checking", run) }
